@@ -277,6 +277,20 @@ def gen_cases(tier, seed):
         for binding in ("post", "redirect", "redirect-signed"):
             cases.append({"id": "%s-bytes-m%d" % (binding, mk), "sig": [binding, "bytes-message", mk, "noquery"], "binding": binding, "msg": mk,
                           "as_bytes": True, "relay": "rs", "rclass": "plain", "dest": "noquery"})
+    # payloads that look like the output of another layer of the bindings themselves (raw DEFLATE of a message, its base64, both, gzip, percent
+    # encoding): carried as the octets they are, never "helpfully" decoded once more
+    import base64 as _b64
+    import gzip as _gzip
+    import zlib as _zlib
+    for di, doc in enumerate((_REQ % '<x:doc xmlns:x="urn:x">text</x:doc>', "  <a>text</a>", "<?xml version='1.0'?><r/>")):
+        raw = doc.encode("utf-8")
+        layers = {"deflate": _zlib.compress(raw)[2:-4], "zlib": _zlib.compress(raw), "gzip": _gzip.compress(raw, mtime=0), "base64": _b64.b64encode(raw),
+                  "base64-of-deflate": _b64.b64encode(_zlib.compress(raw)[2:-4]), "percent-encoded": up.quote(doc).encode("ascii"),
+                  "deflate-of-deflate": _zlib.compress(_zlib.compress(raw)[2:-4])[2:-4]}
+        for lname, octets in sorted(layers.items()):
+            for binding in ("post", "redirect"):
+                cases.append({"id": "%s-layered-payload-%s-%d" % (binding, lname, di), "sig": [binding, "layered-payload", lname, di], "binding": binding, "msg": None,
+                              "payload_hex": octets.hex(), "relay": "rs", "rclass": "plain", "dest": "noquery"})
     # artifacts: the endpoint index written into an artifact is the one read back from it
     cases.append({"id": "artifact-endpoint-index", "sig": ["artifact-endpoint-index"], "binding": "artifact-index", "msg": None, "relay": "", "rclass": "empty",
                   "dest": "noquery"})
@@ -333,6 +347,8 @@ def _run_case(case, ctx):
     viol, counters = [], {}
     if "hand" in case:
         kind, msg, is_resp, soaptype = "handwritten-" + HANDWRITTEN[case["hand"]][0], HANDWRITTEN[case["hand"]][1], False, "authn_request"
+    elif "payload_hex" in case:
+        kind, msg, is_resp, soaptype = "layered-payload", bytes.fromhex(case["payload_hex"]), False, None
     elif case["msg"] is None:
         if "payload_size" in case:
             case = dict(case, payload=sized_payload(case["payload_size"], case["fill"], ctx.seed))
